@@ -776,6 +776,9 @@ def r2(ctx, r):
     pcl = fn(ctx, HC, "parseContentLength", HCF)
     thr = [e for e in pcl.stmts() if e.node.get("k") == "throw" and "root" in e.raw]
     cb = [b for b in pcl.blocks.values() if b.cond is not None and common.cmp_parts(b.cond) and common.cmp_parts(b.cond)[0] == "!=" and {key_of(_undo_deref(common.cmp_parts(b.cond)[1])), key_of(_undo_deref(common.cmp_parts(b.cond)[2]))} == {"val", "result"}]
+    if len(cb) != 1 and any(common.cmp_parts(x) and common.cmp_parts(x)[0] == "!=" and {key_of(_undo_deref(common.cmp_parts(x)[1])), key_of(_undo_deref(common.cmp_parts(x)[2]))} == {"val", "result"}
+                            for e in pcl.stmts() for x in walk(e.node) if isinstance(x, dict)):
+        raise AnalysisBroken("parseContentLength: the differing-member test `val != result` is computed as a value (a named condition), not branched on directly — a shape this clause does not follow")
     r.instance()
     r.expect(len(thr) >= 3 and len(cb) == 1 and any(e.kind == "stmt" and e.node.get("k") == "throw" for e in _reach_until_ret(pcl, cb[0].succs[0])[:6]), pcl, None, "client Content-Length list",
              "HttpClient::parseContentLength no longer rejects differing list members", okdesc="client: differing Content-Length list members → HttpFramingError")
